@@ -2137,6 +2137,8 @@ class FuncGraph:
                 old = env.get(k.value.id)
                 self.event('inplace', t, e, data=dict(target=old, how='out=', name=k.value.id))
                 env[k.value.id] = t
+                if isinstance(old, T):
+                    self._write_through_view(old, t, env, e, skip=k.value.id)          # out=<a view of a buffer>: the buffer is written too
         return t
 
     MODERN_ALIASES = {'numpy.permute_dims': 'numpy.transpose', 'numpy.concat': 'numpy.concatenate', 'numpy.pow': 'numpy.power', 'numpy.linalg.vector_norm': 'numpy.linalg.norm',
